@@ -59,16 +59,25 @@ def verify_contract(contract, X, canary=True):
         return out
     obs = out['obligations']
     presat = False
+    presat_open = False      # some path condition could not be decided within the budget (load): not a verdict
     for vc in vcs:
         if vc.kind == 'vacuity':
             # pre-sat: `False` must be refutable, i.e. the path condition is satisfiable
             if not presat:
-                s = z3.Solver()
-                s.set('timeout', 10000)
-                for p in vc.pc:
-                    s.add(p)
-                if s.check() == z3.sat:
+                for budget, seed in ((10000, None), (20000, 7), (core.TIMEOUT_MS * 6, 13)):
+                    s = z3.Solver()
+                    s.set('timeout', budget)
+                    if seed is not None:
+                        s.set('smt.random_seed', seed)
+                    for p in vc.pc:
+                        s.add(p)
+                    r = s.check()
+                    if r != z3.unknown:
+                        break
+                if r == z3.sat:
                     presat = True
+                elif r == z3.unknown:
+                    presat_open = True
             continue
         verdict, dt, model, backend = discharge(vc)
         o = obs.setdefault(vc.oid, {'verdict': 'proved', 'instances': 0, 'time_s': 0.0, 'backends': [],
@@ -92,7 +101,9 @@ def verify_contract(contract, X, canary=True):
                                      'backends': ['z3'], 'kind': 'vacuity',
                                      'note': 'requires-clauses are satisfiable on some path'}
     if not presat:
-        obs[contract.id + '#pre-sat']['verdict'] = 'vacuous'
+        # vacuous only if every path condition is *proved* unsatisfiable; an undecided one is `unknown` (retried by the
+        # driver with a larger budget, never reported as a violation)
+        obs[contract.id + '#pre-sat']['verdict'] = 'unknown' if presat_open else 'vacuous'
     out['wall_s'] = time.time() - t0
     return out
 
